@@ -320,7 +320,9 @@ def _main_input(it, env):
     d = VDict()
     d.entries[2] = DEntry(2, env.lookup("W"))
     d.entries[3] = DEntry(3, env.lookup("M"))
+    # two integrated members in an order that is NOT the canonical CBOR key order: the output must keep the input's order
     d.entries["#payload"] = DEntry("#payload", env.lookup("PAY"))
+    d.entries["#a"] = DEntry("#a", env.lookup("PAY2"))
     env.set("INPUT", cbor.enc(it, VTag(VInt(107), d)))
     it.sign_envelope_call_site = _sign_envelope_at_call_site
     it.call_site_summaries = {"RecursiveSigner.__init__": _rs_init_at_call_site, "RecursiveSigner.recursive_sign": _rs_sign_at_call_site}
@@ -361,7 +363,7 @@ def _rs_sign_at_call_site(it, c_, fi, args, kwargs):
 
 
 c = Contract(FC, "main", ["C09", "C04"])
-for g_ in ("W", "M", "PAY"):
+for g_ in ("W", "M", "PAY", "PAY2"):
     c.ghost(g_, Bytes())
 c.param("sign_subcommand", Const("single-level"))
 c.param("input_envelope", PathStr(exists=True))
